@@ -229,6 +229,7 @@ func runC09(l *core.Ledger) {
 	l.Rule("C09-W3", "a reply channel that can be registered as streaming has no capacity bound covering its deliveries, so delivery must not be a plain blocking send under responseMut")
 	l.Rule("C09-W4", "a server-stream correctable registers defer deleteRouter(id) for every node of the configuration before entering its reply loop")
 	l.Rule("C09-W6", "the stream is marked broken only on transport errors: no error value that can be a context's Err() (directly or through a repository function's result) leads to streamBroken.set()")
+	l.Rule("C09-W8", "streamBroken.set() happens with streamMut held (the failed stream is still current) or on the not-yet-established branch (no reader exists)")
 	l.Rule("C09-W7", "the per-node goroutines (sender, receiver) return only inside a parentCtx.Done() case: nothing a call or a peer does can end them")
 	l.Rule("C09-W5", "the 'held while acquiring' graph over all mutexes of the runtime is acyclic and has no self-edge")
 
@@ -773,10 +774,48 @@ func c09W6(l *core.Ledger, r *rt) {
 					bad = sx.OriginsString(sx.Origins(b.X))
 				}
 			})
+			c09W8(l, f, nd, c, fmt.Sprintf("%s/streamBroken.set#%d/synchronised", fnKey(f), n))
 			l.Check(bad == "", "C09-W6", key, c.Pos(), "set only on transport errors", "the stream is marked broken on an error that can be a caller's context error ("+bad+"): a call whose context ended before its request was written makes the sender tear down a healthy stream; the next request then requests the stream write lock while the reader is parked in RecvMsg on that healthy, idle stream - the node is disabled")
 		})
 	}
 	l.Floor("C09-W6", n, 4, "sites that mark the stream broken")
+}
+
+// c09W8: "broken" must describe the stream that is current when the flag is
+// written. The flag is cleared under the streamMut write hold together with
+// the stream replacement, so a set is exact when streamMut is held (any mode)
+// - the stream cannot be replaced in between - or when no reader goroutine
+// exists yet (the not-established branch of connect). A set outside both can
+// land after another goroutine re-established the stream and marks a healthy
+// stream broken: the next request then asks for the stream write lock while
+// the reader is parked on that healthy stream.
+func c09W8(l *core.Ledger, f *ssa.Function, nd sx.Node, c *ssa.Call, key string) {
+	for _, h := range sx.AnalyzeLocks(f).HeldAt(nd) {
+		if h.Field == "streamMut" {
+			l.OK("C09-W8", key, c.Pos(), "set while streamMut is held: the failed stream is still the current one")
+			return
+		}
+	}
+	noReader := false
+	sx.AllInstrs(f, func(_ sx.Node, in ssa.Instruction) {
+		ifi, ok := in.(*ssa.If)
+		if !ok {
+			return
+		}
+		v, _ := condOf(ifi)
+		g, ok := v.(*ssa.Call)
+		if !ok || g.Call.StaticCallee() == nil || g.Call.StaticCallee().Name() != "get" || len(g.Call.Args) != 1 {
+			return
+		}
+		if _, is := fieldAddrOf(g.Call.Args[0], "connEstablished"); !is {
+			return
+		}
+		if sx.EdgeDominates(f, edgeWhere(ifi, false), nd) {
+			noReader = true
+		}
+	})
+	l.Check(noReader, "C09-W8", key, c.Pos(), "set before the first stream exists (no reader goroutine yet)",
+		"streamBroken is set without holding streamMut while a reader can exist: between the failed attempt and this write another goroutine can have re-established the stream, which is then marked broken although it is healthy - the sender's next reconnect waits for the write lock behind a reader parked on an idle healthy stream")
 }
 
 func c09W7(l *core.Ledger, r *rt, roots []goRoot) {
